@@ -338,6 +338,7 @@ def run(c, prog):
     from . import C15 as _C15, C01_rot as _C01_rot
     _C15.rule_sites(core.Alias(c, "C06"), prog, full=False)     # both readers: explicit value always stored, migrated only when absent — else the formats disagree on which spelling wins
     _C01_rot.run(core.Alias(c, "C06"), prog)     # the binary format's rotation ids must denote the matrix the XML format spells out
+    _C01_rot.rule_exact(c, prog, "C06.rot", "the binary writer (the XML writer spells out all nine components)")
     from . import C16 as _C16
     from sa import db as _dbm
     _C16.rule_sername(core.Alias(c, "C06"), prog, _dbm.Database())     # two canonical properties written under one name lose a value
